@@ -87,6 +87,9 @@ type SessSpec struct {
 	Membership string                `json:"membership,omitempty"` // "" static 1/1 | dynamic (fed through PUT /membership/info)
 	FirstInfo  [2]int                `json:"first_info,omitempty"` // member,total sent while starting (dynamic)
 	RebalanceDelayMs int             `json:"rebalance_delay_ms,omitempty"`
+	// LogDelayMs: the goroutine writing a library log line that contains the key is held up for that many ms
+	// (a slow log sink / a pre-emption at that point of the library's execution)
+	LogDelayMs map[string]int `json:"log_delay_ms,omitempty"`
 	// HookDelayMs: injected delays at the library's verif hook points (point name -> ms), e.g. "wait.signal"
 	HookDelayMs map[string]int `json:"hook_delay_ms,omitempty"`
 	RollbackMitigation bool          `json:"rollback_mitigation,omitempty"`
@@ -354,6 +357,17 @@ func RunSession(spec *SessSpec) *Trace {
 	}
 	tr.Env = env
 	defer env.Close()
+	if len(spec.LogDelayMs) > 0 {
+		hx.LogHook = func(line string) {
+			for k, ms := range spec.LogDelayMs {
+				if strings.Contains(line, k) {
+					env.Log.Add(evlog.Rec{K: "log.delay", VB: -1, A: uint64(ms), S: k})
+					time.Sleep(time.Duration(ms) * time.Millisecond)
+				}
+			}
+		}
+		defer func() { hx.LogHook = nil }()
+	}
 	setHookDelays(env.Log, spec.HookDelayMs)
 	defer setHookDelays(nil, nil)
 	env.Sim.Fragment = spec.Fragment
